@@ -150,7 +150,16 @@ pub fn check_fmt(c: &FmtCase, st: &mut Stats) -> Result<(), String> {
                 2 => LocalTimeType::new(off, true, None),
                 _ => LocalTimeType::new(off, true, Some(b"BST")),
             }
-            .map_err(|e| format!("{e:?}"))?;
+            ;
+            let ltt = match ltt {
+                Ok(l) => l,
+                // whether the most negative offset is a legal local time type is C13's question; C18 renders it if it can be built
+                Err(_) if off == i32::MIN => {
+                    st.exclude("offset i32::MIN refused by the local time type constructors (C13)");
+                    return Ok(());
+                }
+                Err(e) => return Err(format!("{e:?}")),
+            };
             let d = if c.via_timespec {
                 // instant whose local fields are (about) f: unix = civil - off
                 let u = f.civil_secs() - off as i128;
@@ -268,7 +277,7 @@ pub fn run(ctx: &Ctx) -> Outcome {
             }
         }
         for f in fs {
-            for off in [None, Some(0), Some(1), Some(-1), Some(59), Some(-59), Some(3600), Some(-3600), Some(86_399), Some(-86_399), Some(i32::MAX), Some(i32::MIN + 1)] {
+            for off in [None, Some(0), Some(1), Some(-1), Some(59), Some(-59), Some(3600), Some(-3600), Some(86_399), Some(-86_399), Some(i32::MAX), Some(i32::MIN + 1), Some(i32::MIN), Some(36_000_001), Some(-36_000_001), Some(359_999_999), Some(-359_999_999)] {
                 for via in [false, true] {
                     for flavour in 0..4u8 {
                         check_enum("fmt", &FmtCase { f, off, via_timespec: via, flavour }, st, check_fmt)?;
@@ -282,7 +291,7 @@ pub fn run(ctx: &Ctx) -> Outcome {
     if out.failure.is_some() {
         return out;
     }
-    let cases = ctx.tier.pick(60_000u32, 5_000_000u32);
+    let cases = ctx.tier.pick(240_000u32, 5_000_000u32);
     let strat = (gens::arb_valid_fields(), prop_oneof![1 => Just(None), 5 => arb_offset().prop_map(Some)], any::<bool>(), 0u8..4).prop_map(|(f, off, via_timespec, flavour)| FmtCase { f, off, via_timespec, flavour });
     let rs = par_shards(16, |shard, st| pt_shard(ctx, "fmt", shard, cases, &strat, st, check_fmt));
     out.absorb_all(rs);
